@@ -300,7 +300,9 @@ Definition obs_eqb (a b : obs) : bool :=
   && (o_total a =? o_total b) && (o_succ a =? o_succ b) && (o_fail a =? o_fail b)
   && (o_completed a =? o_completed b) && (o_failed a =? o_failed b)
   && (o_running a =? o_running b)
-  && list_eqb Nat.eqb (o_ran a) (o_ran b).
+  && (length (o_ran a) =? length (o_ran b))
+  && forallb (fun j => memb j (o_ran b)) (o_ran a)
+  && forallb (fun j => memb j (o_ran a)) (o_ran b).
 
 (** every non-cancel label disabled (decidable form of [terminal] for concrete states) *)
 Definition terminal_b (c : cfg) (s : state) : bool :=
